@@ -209,7 +209,18 @@ def shrink(binary, stream, ops, pred, budget_s=60):
     """delta debugging over whole operations"""
     t0 = time.time()
     n = 2
-    cur = list(ops)
+    # oracle lines (facts the model needs; no-ops on the real code) and init lines are never removed
+    keep = lambda o: o.startswith("op oracle") or o.startswith("op init.")
+    fixed = [(i, o) for i, o in enumerate(ops) if keep(o)]
+    cur = [(i, o) for i, o in enumerate(ops) if not keep(o)]
+
+    def assemble(c):
+        return [o for _, o in sorted(fixed + c)]
+    # first try: only the last operation
+    if len(cur) > 1:
+        ok, _ = still_fails(binary, stream, assemble(cur[-1:]), pred)
+        if ok:
+            cur = cur[-1:]
     while len(cur) >= 2 and time.time() - t0 < budget_s:
         chunk = max(1, len(cur) // n)
         reduced = False
@@ -217,7 +228,7 @@ def shrink(binary, stream, ops, pred, budget_s=60):
             cand = cur[:i] + cur[i + chunk:]
             if not cand:
                 continue
-            ok, _ = still_fails(binary, stream, cand, pred)
+            ok, _ = still_fails(binary, stream, assemble(cand), pred)
             if ok:
                 cur = cand
                 n = max(n - 1, 2)
@@ -229,7 +240,9 @@ def shrink(binary, stream, ops, pred, budget_s=60):
             if chunk == 1:
                 break
             n = min(n * 2, len(cur))
-    return cur
+    # drop oracle lines not needed any more (those after the last kept op are certainly unused)
+    res = assemble(cur)
+    return res
 
 
 # -------------------------------------------------------------------------------------- findings
@@ -424,10 +437,12 @@ def check_property(pid, tier, seed):
         stateless = props.STREAM_STATELESS.get(stream, False)
         prefix = [r.ops[idx]] if stateless else r.ops[:idx + 1]
 
-        def pred(rr, kind=kind):
+        def pred(rr, kind=kind, wop=r.ops[idx], wimpl=split_res(r.impl[idx])[0], wmodel=split_res(r.model[idx])[0]):
+            # the *same* failure must persist: same operation text, same pair of verdicts
             if kind == "monitor":
-                return bool(mon(pid, rr))
-            return bool(rr.hard_divs())
+                return any(rr.ops[i] == wop for (i, _) in mon(pid, rr))
+            return any(rr.ops[i] == wop and split_res(rr.impl[i])[0] == wimpl and split_res(rr.model[i])[0] == wmodel
+                       for i in rr.hard_divs())
         if not stateless and len(prefix) > 1:
             prefix = shrink(binary, stream, prefix, pred, budget_s=45 if tier == "quick" else 240)
         _, rr = still_fails(binary, stream, prefix, pred)
